@@ -89,15 +89,16 @@ def finish (base : List String) (steps : List Step) (obs : String) : Verdict :=
 /-- the statement for one `Add` call, on the implementation's observation -/
 def specAdd (args : List Exon) (t : List String) : Option String :=
   match t with
-  | [err, len, before, after, res, _, _, _] =>
-    match parseNat len, parseExons before, parseExons after, parseExons res with
-    | some len, some before, some after, some res =>
+  | [err, len, before, after, res, _, _, _, heldB, heldA] =>
+    match parseNat len, parseExons before, parseExons after, parseExons res, parseExons heldB, parseExons heldA with
+    | some len, some before, some after, some res, some heldB, some heldA =>
       -- `Spec.GeneCheck.addStatement`; proved in `Properties/C20_checker.lean` (`add_checker_iff`)
-      addStatement (err == "ok") (before.take len) (after.take len) res args
-    | _, _, _, _ => some "unparsable-observation"
+      addStatement (err == "ok") (before.take len) (after.take len) res args heldB heldA
+    | _, _, _, _, _, _ => some "unparsable-observation"
   | _ => some "unparsable-observation"
 
-abbrev XsState := Heap × Slice
+/-- (heap, `s`) and the second variable `held` -/
+abbrev XsState := (Heap × Slice) × Slice
 
 def xsStep (st : XsState) (op : String) (ob : String) : Option (XsState × Step) :=
   match splitOp op with
@@ -105,26 +106,33 @@ def xsStep (st : XsState) (op : String) (ob : String) : Option (XsState × Step)
     if k == "a" || k == "d" then
       match parseExons arg with
       | some args =>
-        let (h', r, e) := add st.1 st.2 args
-        let shared := r.arr == st.2.arr && cap h' r > 0 && cap h' st.2 > 0
-        let m := s!"{errCode e} {st.2.len} {showExons (cells st.1 st.2)} {showExons (cells h' st.2)} {showExons (read h' r)} {cap h' r} {showExons args} {showBool shared}"
-        let spare := cap st.1 st.2 > st.2.len
+        let (h', r, e) := add st.1.1 st.1.2 args
+        let shared := r.arr == st.1.2.arr && cap h' r > 0 && cap h' st.1.2 > 0
+        let m := s!"{errCode e} {st.1.2.len} {showExons (cells st.1.1 st.1.2)} {showExons (cells h' st.1.2)} {showExons (read h' r)} {cap h' r} {showExons args} {showBool shared} {showExons (read st.1.1 st.2)} {showExons (read h' st.2)}"
+        let spare := cap st.1.1 st.1.2 > st.1.2.len
+        -- the receiver is empty and its spare capacity is what `held` reads
+        let reset := st.1.2.len == 0 && st.2.len > 0 && st.2.arr == st.1.2.arr && st.2.off == st.1.2.off
         let tags := (if e.isSome then ["rejected", "nt", "err-" ++ errCode e] ++ (if spare then ["rejected-with-spare-capacity"] else [])
                      else ["accepted"] ++ (if args.isEmpty then [] else ["nt"]))
-        some (xsApply st (.add args (k == "a")), { model := m, viol := specAdd args (tokens ob), tags })
+          ++ (if reset then [if e.isSome then "rejected-Add-on-reset-receiver" else "accepted-Add-on-reset-receiver",
+                if args.length ≤ cap st.1.1 st.1.2 then "reset-args-fit-capacity" else "reset-args-exceed-capacity"] else [])
+        some (xhApply st (.op (.add args (k == "a"))), { model := m, viol := specAdd args (tokens ob), tags })
       | none => none
     else if k == "t" then
       match parseNat arg with
       | some j =>
-        let st' := xsApply st (.upTo j)
-        some (st', { model := s!"t {st'.2.len} {cap st'.1 st'.2}", tags := ["reslice"] })
+        let st' := xhApply st (.op (.upTo j))
+        some (st', { model := s!"t {st'.1.2.len} {cap st'.1.1 st'.1.2}", tags := ["reslice"] })
       | none => none
     else if k == "o" then
       match parseNat arg with
       | some j =>
-        let st' := xsApply st (.drop j)
-        some (st', { model := s!"o {st'.2.len} {cap st'.1 st'.2}", tags := ["reslice"] })
+        let st' := xhApply st (.op (.drop j))
+        some (st', { model := s!"o {st'.1.2.len} {cap st'.1.1 st'.1.2}", tags := ["reslice"] })
       | none => none
+    else if k == "h" then
+      let st' := xhApply st .hold
+      some (st', { model := s!"h {st'.2.len}", tags := ["hold"] })
     else none
   | none => none
 
@@ -137,7 +145,7 @@ def runHist {σ} (step : σ → String → String → Option (σ × Step)) : σ 
 
 def handleXS (n c : Nat) (init : List Exon) (ops : List String) (obs : String) : Verdict :=
   if init.length ≠ n || c < n then bad "xs header" else
-  match runHist xsStep (xsInit n (init ++ List.replicate (c - n) zeroExon)) ops (pieces obs) with
+  match runHist xsStep (xhInit n (init ++ List.replicate (c - n) zeroExon)) ops (pieces obs) with
   | some steps => finish ["xs"] steps obs
   | none => bad "xs op"
 
@@ -412,6 +420,15 @@ def txModel (cfg : TxCfg) (h : Heap) (t : Tx) (e : Option Err) : String :=
     s!"{base} {showTF u5} {showTF (.ok (cds c))} {showTF u3} {sh}"
   else base ++ " - - - -"
 
+/-- the model's operation for an operation token: `S`, `A`, `R`, and `Z<j>` (`Z` = `Z0`) -/
+def parseTxOp (k : String) (args : List Exon) : Option (String × TxOp) :=
+  if k == "S" then some ("S", .set args) else if k == "A" then some ("A", .addDrop args)
+  else if k == "R" then some ("R", .addSet args)
+  else if k.startsWith "Z" then
+    let js := (k.drop 1).toString
+    if js.isEmpty then some ("Z", .resliceAdd 0 args) else (parseNat js).map fun j => ("Z", .resliceAdd j args)
+  else none
+
 /-- state: model heap and transcript, and the exon set last shown by the implementation -/
 def txStep (cfg : TxCfg) (st : TxState × List Exon) (op : String) (ob : String) : Option ((TxState × List Exon) × Step) :=
   match splitOp op with
@@ -419,19 +436,25 @@ def txStep (cfg : TxCfg) (st : TxState × List Exon) (op : String) (ob : String)
     match parseExons arg with
     | some args =>
       let (ms, prev) := st
-      let res : Option (Heap × Tx × Option Err) :=
-        (if k == "S" then some (TxOp.set args) else if k == "A" then some (TxOp.addDrop args)
-         else if k == "R" then some (TxOp.addSet args) else none).map fun op =>
-          match txApply (ms.h, ms.t) op with
-          | ((h', t'), e) => (h', t', e)
-      match res with
-      | some (h', t', e) =>
-        let (viol, shown) := specTx cfg k args prev (tokens ob)
+      match parseTxOp k args with
+      | some (kind, mop) =>
+        let ((h', t'), e) := txApply (ms.h, ms.t) mop
+        let (viol, shown) := specTx cfg kind args prev (tokens ob)
         let n := (read h' t'.exons).length
-        let tags := [if e.isSome then "rejected" else "accepted", "op-" ++ k, "nt"]
+        let ztags : List String :=
+          match mop with
+          | .resliceAdd j _ =>
+            let recv := resliceTo ms.h ms.t.exons j
+            [if recv.len == 0 then "reset-receiver" else "resliced-receiver",
+             if args.length ≤ cap ms.h recv - recv.len then "args-fit-spare-capacity" else "args-exceed-spare-capacity"]
+            ++ (if cap ms.h recv > recv.len && args.length ≤ cap ms.h recv - recv.len then
+                  [if e.isSome then "rejected-Add-into-live-exons" else "accepted-Add-into-live-exons"] else [])
+          | _ => []
+        let tags := [if e.isSome then "rejected" else "accepted", "op-" ++ kind, "nt"]
           ++ (if e.isSome then ["err-" ++ errCode e] else [])
           ++ (if n ≤ 1 then ["single-exon"] else if n > 12 then ["more-than-12-exons"] else [])
           ++ (if (introns (read h' t'.exons)).any (·.len == 0) then ["abutting-exons"] else [])
+          ++ ztags
         some (({ h := h', t := t' }, shown), { model := txModel cfg h' t' e, viol, tags })
       | none => none
     | none => none
@@ -497,16 +520,32 @@ def handleGF (off : Int) (ops : List String) (obs : String) : Verdict :=
 
 /-! ### cv: 1-based / 0-based -/
 
+def minInt64 : Int := -9223372036854775808
+def maxInt64 : Int := 9223372036854775807
+
+def showOW64 : Except Panic Int64 → String
+  | .ok o => toString o.toInt
+  | .error e => panicTok e
+
+/-- The model run here is the bit-exact one (`oneToZero64`, `zeroToOne64` over `Int64`, wrap-around);
+    `Properties/C20_int64.lean` proves that it is the unbounded one except for `ZeroToOne(MaxInt64)`.
+    Statement: `OneToZero(ZeroToOne(p)) = p` for every `int` but `MaxInt64` — which is not a value of
+    `OneToZero` at all (`maxInt64_not_a_zero_based_image`), so that no implementation could satisfy
+    the law there — and `ZeroToOne(OneToZero(p)) = p` for every `p ≠ 0`. -/
 def handleCV (p : Int) (obs : String) : Verdict :=
-  let a := showOW (oneToZero p)
-  let b := toString (zeroToOne p)
-  let c := showOW (oneToZero (zeroToOne p))
-  let d := showOW ((oneToZero p).map zeroToOne)
+  if p < minInt64 || p > maxInt64 then bad "cv argument is not an int64" else
+  let q := Int64.ofInt p
+  let a := showOW64 (oneToZero64 q)
+  let b := toString (zeroToOne64 q).toInt
+  let c := showOW64 (oneToZero64 (zeroToOne64 q))
+  let d := showOW64 ((oneToZero64 q).map zeroToOne64)
   let m := s!"{a} {b} {c} {d}"
   let tags := ["cv", "nt", if p = 0 then "zero" else if p > 0 then "positive" else "negative"]
+    ++ (if p ≥ maxInt64 - 2 || p ≤ minInt64 + 2 then ["int64-boundary"] else [])
+    ++ (if p = maxInt64 then ["ZeroToOne-wraps"] else [])
   match tokens obs with
   | [_, _, ic, id] =>
-    if ic ≠ toString p then fail "OneToZero-of-ZeroToOne-is-not-the-identity" tags
+    if p ≠ maxInt64 && ic ≠ toString p then fail "OneToZero-of-ZeroToOne-is-not-the-identity" tags
     else if p ≠ 0 && id ≠ toString p then fail "ZeroToOne-of-OneToZero-is-not-the-identity" tags
     else if m == obs then ok tags else diff m tags
   | _ => fail "unparsable-observation" tags
